@@ -10,15 +10,23 @@ impl BlockTransactionsVerifier {
         transactions: &[core::TransactionView],
     ) -> Status {
         let block_short_ids = block.block_short_ids();
-        let missing_short_ids: Vec<packed::ProposalShortId> = indexes
-            .iter()
-            .filter_map(|index| {
-                block_short_ids
-                    .get(*index as usize)
-                    .expect("should never outbound")
-                    .clone()
-            })
-            .collect();
+        // the indexes were computed from the compact block this peer sent; the pending
+        // compact block is the one announced first for this header, by any peer, and may
+        // list fewer transactions
+        let mut missing_short_ids: Vec<packed::ProposalShortId> = Vec::with_capacity(indexes.len());
+        for index in indexes {
+            match block_short_ids.get(*index as usize) {
+                Some(short_id) => missing_short_ids.extend(short_id.clone()),
+                None => {
+                    return StatusCode::BlockTransactionsShortIdsAreUnmatchedWithPendingCompactBlock
+                        .with_context(format!(
+                            "Expected index {} is out of the pending compact block's {} transactions",
+                            index,
+                            block_short_ids.len(),
+                        ));
+                }
+            }
+        }
 
         if missing_short_ids.len() != transactions.len() {
             return StatusCode::BlockTransactionsLengthIsUnmatchedWithPendingCompactBlock
